@@ -147,3 +147,104 @@ Theorem C01_contains_word_join :
   contains (word p) (join sp l) = has_mid p l.
 Proof. exact contains_word_join. Qed.
 Print Assumptions C01_contains_word_join.
+
+(* ---- files written by SPARKX's own flow generators (GenerateFlow.generate_dummy_... writers).
+   gen_render interprets the write templates regenerated from GenerateFlow.py (Gen/GenGenFlow.v) for nev events of
+   mult particles: header writes, per event the header write, one row write per particle index 0..mult-1 and the
+   footer write, then the trailer writes; the stream is cut into lines at the newlines and into tokens as the
+   readers do.  Oracles: dec = str(int) / "%d" % int (only its values up to max nev mult matter), vals = the "%g"
+   texts; the hypotheses are laws of Python float()/int() on exactly the tokens that occur (the folded literal
+   row constants by conversion class, the footer's impact literal, the trailer words). *)
+From SX Require Import Gen.GenGenFlow Model.GenFlowDoc Proofs.C01_GenFlow.
+
+Theorem C01_generators_oscar :
+  forall tok_float tok_int pdg_valid dec vals w nev mult,
+  In w gen_writers -> w_family w = "Oscar2013" -> (w_min_events w <= nev)%nat ->
+  (forall n, (n <= Nat.max nev mult)%nat -> numeric (dec n) = true /\ tok_int (dec n) = Some (zq (Z.of_nat n))) ->
+  (forall i j name, (i < nev)%nat -> (j < mult)%nat -> In name (row_holes "%g" w) ->
+     numeric (vals i j name) = true /\ exists v, tok_float (vals i j name) = Some v) ->
+  (forall t, In t (row_lits "%g" w) -> exists v, tok_float t = Some v) ->
+  (forall t, In t (row_lits "%d" w) -> exists v, tok_int t = Some v) ->
+  (exists v, tok_float (impact_lit w) = Some v) ->
+  exists d, wf tok_float tok_int pdg_valid d "Oscar2013" [] /\
+            gen_render dec vals w nev mult = render d /\
+            List.length (d_events d) = nev /\
+            Forall (fun e => List.length (e_rows e) = mult) (d_events d).
+Proof. exact generators_oscar. Qed.
+Print Assumptions C01_generators_oscar.
+
+(* composed with C01_oscar_load: what loading the written file yields *)
+Theorem C01_generators_oscar_load :
+  forall tok_float tok_int pdg_valid dec vals w nev mult,
+  In w gen_writers -> w_family w = "Oscar2013" -> (w_min_events w <= nev)%nat ->
+  (forall n, (n <= Nat.max nev mult)%nat -> numeric (dec n) = true /\ tok_int (dec n) = Some (zq (Z.of_nat n))) ->
+  (forall i j name, (i < nev)%nat -> (j < mult)%nat -> In name (row_holes "%g" w) ->
+     numeric (vals i j name) = true /\ exists v, tok_float (vals i j name) = Some v) ->
+  (forall t, In t (row_lits "%g" w) -> exists v, tok_float t = Some v) ->
+  (forall t, In t (row_lits "%d" w) -> exists v, tok_int t = Some v) ->
+  (exists v, tok_float (impact_lit w) = Some v) ->
+  exists d ld, wf tok_float tok_int pdg_valid d "Oscar2013" [] /\
+    gen_render dec vals w nev mult = render d /\
+    load tok_float tok_int pdg_valid None (gen_render dec vals w nev mult) SelAll = Ok ld /\
+    ld = expected tok_float tok_int pdg_valid d "Oscar2013" [] /\
+    l_nevents ld = Z.of_nat nev /\
+    l_counts ld = map (fun i => (Z.of_nat i, Z.of_nat mult)) (seq 0 nev) /\
+    l_format ld = "Oscar2013" /\
+    List.length (l_events ld) = nev /\
+    Forall (fun ev => List.length ev = mult) (l_events ld).
+Proof. exact generators_oscar_load. Qed.
+Print Assumptions C01_generators_oscar_load.
+
+Theorem C01_generators_jetscape :
+  forall tok_float tok_int pdg_valid pdg_charge usqrt dec vals w nev mult s1 s2,
+  In w gen_writers -> w_family w = "JETSCAPE" -> (w_min_events w <= nev)%nat ->
+  (forall n, (n <= Nat.max nev mult)%nat -> numeric (dec n) = true /\ tok_int (dec n) = Some (zq (Z.of_nat n))) ->
+  (forall i j name, (i < nev)%nat -> (j < mult)%nat -> In name (row_holes "%g" w) ->
+     numeric (vals i j name) = true /\ exists v, tok_float (vals i j name) = Some v) ->
+  (forall t, In t (row_lits "%g" w) -> exists v, tok_float t = Some v) ->
+  (forall t, In t (row_lits "%d" w) -> exists v, tok_int t = Some v) ->
+  first_floats tok_float 2 (nonempty (trailer_line w)) = [s1; s2] ->
+  exists d, jwf tok_float tok_int pdg_valid pdg_charge usqrt "N_hadrons" d s1 s2 /\
+            gen_render dec vals w nev mult = jrender d /\
+            List.length (jd_events d) = nev /\
+            Forall (fun e => List.length (je_rows e) = mult) (jd_events d).
+Proof. exact generators_jetscape. Qed.
+Print Assumptions C01_generators_jetscape.
+
+Theorem C01_generators_jetscape_load :
+  forall tok_float tok_int pdg_valid pdg_charge usqrt dec vals w nev mult s1 s2,
+  In w gen_writers -> w_family w = "JETSCAPE" -> (w_min_events w <= nev)%nat ->
+  (forall n, (n <= Nat.max nev mult)%nat -> numeric (dec n) = true /\ tok_int (dec n) = Some (zq (Z.of_nat n))) ->
+  (forall i j name, (i < nev)%nat -> (j < mult)%nat -> In name (row_holes "%g" w) ->
+     numeric (vals i j name) = true /\ exists v, tok_float (vals i j name) = Some v) ->
+  (forall t, In t (row_lits "%g" w) -> exists v, tok_float t = Some v) ->
+  (forall t, In t (row_lits "%d" w) -> exists v, tok_int t = Some v) ->
+  first_floats tok_float 2 (nonempty (trailer_line w)) = [s1; s2] ->
+  exists d ld, jwf tok_float tok_int pdg_valid pdg_charge usqrt "N_hadrons" d s1 s2 /\
+    gen_render dec vals w nev mult = jrender d /\
+    jload tok_float tok_int pdg_valid pdg_charge usqrt None (gen_render dec vals w nev mult) "N_hadrons" SelAll = Ok ld /\
+    ld = jexpected tok_float tok_int pdg_valid pdg_charge usqrt d s1 s2 /\
+    j_nevents ld = Z.of_nat nev /\
+    j_counts ld = map (fun i => (Z.of_nat i + 1, Z.of_nat mult)%Z) (seq 0 nev) /\
+    j_sigma ld = (s1, s2) /\
+    List.length (j_events ld) = nev /\
+    Forall (fun ev => List.length ev = mult) (j_events ld).
+Proof. exact generators_jetscape_load. Qed.
+Print Assumptions C01_generators_jetscape_load.
+
+(* all eight writers are covered: four of each family, nothing else *)
+Theorem C01_generators_families :
+  map w_family gen_writers = ["JETSCAPE"; "JETSCAPE"; "JETSCAPE"; "JETSCAPE"; "Oscar2013"; "Oscar2013"; "Oscar2013"; "Oscar2013"].
+Proof. exact generators_families. Qed.
+Print Assumptions C01_generators_families.
+
+(* non-vacuity: concrete oracles meet every hypothesis above (two events of one particle) *)
+Theorem C01_generators_example :
+  (exists d ld, wf gx_tf gx_ti gx_pv d "Oscar2013" [] /\
+     load gx_tf gx_ti gx_pv None (gen_render gx_dec gx_vals wo 2 1) SelAll = Ok ld /\
+     l_nevents ld = 2%Z /\ l_counts ld = [(0, 1); (1, 1)]%Z) /\
+  (exists d ld, jwf gx_tf gx_ti gx_pv (fun _ => 1%Q) (fun x => x) "N_hadrons" d 0%Q 0%Q /\
+     jload gx_tf gx_ti gx_pv (fun _ => 1%Q) (fun x => x) None (gen_render gx_dec gx_vals wj 2 1) "N_hadrons" SelAll = Ok ld /\
+     j_nevents ld = 2%Z /\ j_counts ld = [(1, 1); (2, 1)]%Z).
+Proof. exact generators_example. Qed.
+Print Assumptions C01_generators_example.
